@@ -60,6 +60,11 @@ class ZConfigParser:
             if isinstance(e.object, bytes):
                 self.lineno += e.object.count(b"\n", 0, e.start)
             self.error("cannot decode the text of the resource: %s" % e)
+        except OSError as e:
+            # the file opened all right but cannot be read (any more): an
+            # unreadable resource, reported like one that cannot be opened
+            self.lineno += 1
+            self.error("cannot read the resource: %s" % e)
         if line:
             self.lineno += 1
             return False, line.strip()
